@@ -597,6 +597,18 @@ class ManifestRecursiveLoader:
                     dirout[filename] = e
         return out
 
+    def _walk_top(self, path):
+        """
+        Get the system path to start os.walk() at for directory @path.
+        It is written without a trailing slash so that
+        os.path.dirname() of a path directly inside it names it: that is
+        how the walks look up the directories they have passed (symlink
+        loop detection).
+        """
+        top = os.path.join(self.root_directory, path)
+        stripped = top.rstrip('/')
+        return stripped if stripped else top
+
     def assert_directory_verifies(self,
                                   path='',
                                   fail_handler=throw_exception,
@@ -629,7 +641,7 @@ class ManifestRecursiveLoader:
         """
 
         entry_dict = self.get_file_entry_dict(path)
-        it = os.walk(os.path.join(self.root_directory, path),
+        it = os.walk(self._walk_top(path),
                      onerror=throw_exception,
                      followlinks=True)
 
@@ -1040,7 +1052,7 @@ class ManifestRecursiveLoader:
             verify_manifests=verify_manifests)
         new_manifests = []
         directory_ids = {}
-        it = os.walk(os.path.join(self.root_directory, path),
+        it = os.walk(self._walk_top(path),
                      onerror=throw_exception,
                      followlinks=True)
 
@@ -1165,7 +1177,7 @@ class ManifestRecursiveLoader:
             self._iter_manifests_for_path(path)))
         directory_ids = {}
 
-        it = os.walk(os.path.join(self.root_directory, path),
+        it = os.walk(self._walk_top(path),
                      onerror=throw_exception,
                      followlinks=True)
 
